@@ -24,4 +24,10 @@ static LargeInt ev_eval(const struct sStrComp* pExpr, IntType Type, Boolean* pOK
 }
 LargeInt EvalStrIntExpression(const struct sStrComp* pExpr, IntType Type, Boolean* pResult) { return ev_eval(pExpr, Type, pResult, NULL); }
 LargeInt EvalStrIntExpressionWithFlags(const struct sStrComp* pExpr, IntType Type, Boolean* pResult, tSymbolFlags* pFlags) { return ev_eval(pExpr, Type, pResult, pFlags); }
+LargeInt EvalStrIntExpressionWithResult(const struct sStrComp* pExpr, IntType Type, struct sEvalResult* pResult)
+{
+  Boolean ok; tSymbolFlags fl; LargeInt v = ev_eval(pExpr, Type, &ok, &fl);
+  pResult->OK = ok; pResult->Flags = fl; pResult->AddrSpaceMask = 0; pResult->DataSize = eSymbolSizeUnknown;
+  return v;
+}
 #endif
